@@ -186,7 +186,10 @@ func TestC02(t *testing.T) {
 	RunProbes(st, "C02")
 	maxPoints := 40
 	if tier() == "thorough" {
-		maxPoints = 1 << 30
+		// bounded so that the tier finishes in about a quarter of an hour on an idle 16-core machine
+		// (every point is a real child process on a real disk): chains with up to 1,600 points are
+		// enumerated exhaustively, longer ones keep every call around COMMIT and sample the rest
+		maxPoints = 1600
 	}
 	rapid.Check(t, func(rt *rapid.T) {
 		sc := genFaultChain(rt)
